@@ -46,7 +46,7 @@ def showMsgs (ms : List Msg) : String :=
   if ms.isEmpty then "-" else ";".intercalate (ms.map showMsg)
 
 def showErr : Err → String
-  | .eof => "eof" | .oversize => "oversize" | .blockSize => "blocksize" | .ext => "ext" | .fuel => "model-fuel"
+  | .eof => "eof" | .oversize => "oversize" | .blockSize => "blocksize" | .ext => "ext" | .panic => "panic" | .fuel => "model-fuel"
 
 /-- Comma separated chunks, each `<hex>` or `<hex>*<count>`. -/
 def parseChunks (s : String) : Bytes :=
